@@ -169,7 +169,38 @@ def schema_from_json(j) -> Schema:
     return Schema(j["backend"], classes, colls, j["name"], enums)
 
 
+# a declaration REPLACES what the translator knew before - also what a back end installs by default just before the query's metadata is processed
+REDECLARED = [
+    # (back end, accessor, bank, declaration, value text, expected C++ leaf type, python value of the column from the default bool)
+    ("cms_aod", "Muons", "muons", {"metadata_type": "add_method_type_info", "type_string": "reco::Muon", "method_name": "isPFMuon", "return_type": "bool", "tree_type": "int"}, "m.isPFMuon()", "int"),
+    ("cms_miniaod", "Muons", "slimmedMuons", {"metadata_type": "add_method_type_info", "type_string": "pat::Muon", "method_name": "isPFMuon", "return_type": "bool", "tree_type": "int"}, "m.isPFMuon()", "int"),
+    ("cms_aod", "Muons", "muons", {"metadata_type": "add_method_type_info", "type_string": "reco::Muon", "method_name": "isPFIsolationValid", "return_type": "bool", "tree_type": "double"}, "m.isPFIsolationValid()", "double"),
+]
+
+
+def redeclared_defaults(stats: Stats):
+    from vf.gen.query import dataset_text
+    from vf.model.schema import standard_schema
+
+    for be, acc, bank, md, val, leaf in REDECLARED:
+        sch = standard_schema(be)
+        text = f"Select(SelectMany(MetaData({dataset_text(sch)}, {md!r}), lambda e: e.{acc}({bank!r})), lambda m: {val})"
+        # (the booked leaf type is what is looked at: one event with an empty collection is enough)
+        evs = [Event.from_json({"id": 1, "objs": [], "banks": [[sch.coll(acc).container, bank, []]]})]
+        r = enginea.execute(text, be, evs, cxx.std_model(be))
+        rep = {"backend": be, "query": text, "redeclared": True}
+        if r.stage != "ok":
+            stats.violation("redeclared-default-" + r.stage, f"a query that re-declares a default method type ({md['method_name']}): {r.stage}: {r.error[:200]}", rep)
+            continue
+        got = r.out["book"][0]["type"]
+        stats.case("redeclared:" + text[-120:], True, ["redeclared-default-method-type", f"backend={be}"], {"backend": be, "declaration": md, "leaf": got})
+        if got != leaf:
+            stats.violation("redeclared-default-ignored", f"{md['type_string']}::{md['method_name']} re-declared with tree_type {md['tree_type']}: the column is booked as {got}, not {leaf} "
+                            "(the declaration was dropped in favour of the back end's default)", rep)
+
+
 def run(ctx: Ctx):
+    redeclared_defaults(ctx.stats)
     ctx.rule = RULE
     ctx.assumptions = ["the C++ model is generated from the same declarations that are sent as metadata (smart-pointer wrappers stand in for deref_count)",
                        "pointers to scalars and pointer depth > 1 on collections are not generated"]
@@ -182,6 +213,10 @@ def run(ctx: Ctx):
 
 
 def replay(case):
+    if case.get("redeclared"):
+        s_ = Stats()
+        redeclared_defaults(s_)
+        return [{"key": v["key"], "what": v["what"]} for v in s_.violations]
     schema = schema_from_json(case["schema_obj"])
     root = tempfile.mkdtemp(prefix="vf_c10r_")
     try:
